@@ -113,6 +113,10 @@ pub struct World {
     pub io_yield: Option<fn()>,
     /// Largest single read request seen (bytes); used by the garbage-sized-buffer oracle.
     pub max_read_request: u64,
+    /// Work budget: once `io_calls` exceeds it every simulated file call fails (turns a
+    /// would-be hang into a recorded, deterministic verdict instead of a wall-clock timeout).
+    pub io_budget: Option<u64>,
+    pub io_budget_tripped: bool,
 }
 
 fn task_zero() -> u32 {
@@ -140,6 +144,8 @@ impl World {
             task_id: task_zero,
             io_yield: None,
             max_read_request: 0,
+            io_budget: None,
+            io_budget_tripped: false,
         }
     }
 
@@ -235,11 +241,27 @@ fn path_key<P: AsRef<Path>>(p: P) -> String {
 fn io_point() {
     let y = with(|w| {
         w.io_calls += 1;
+        if let Some(b) = w.io_budget {
+            if w.io_calls > b {
+                w.io_budget_tripped = true;
+            }
+        }
         w.io_yield
     })
     .flatten();
     if let Some(f) = y {
         f();
+    }
+}
+
+fn budget_err() -> Option<io::Error> {
+    if with(|w| w.io_budget_tripped).unwrap_or(false) {
+        Some(io::Error::new(
+            io::ErrorKind::Other,
+            "sim disk: I/O work budget exhausted",
+        ))
+    } else {
+        None
     }
 }
 
@@ -363,6 +385,9 @@ impl Read for File {
             Inner::Sim(h) => h,
         };
         io_point();
+        if let Some(e) = budget_err() {
+            return Err(e);
+        }
         let pos = h.pos.load(Ordering::SeqCst);
         let is_target = h.is_target;
         let want = buf.len();
@@ -540,6 +565,9 @@ impl Seek for File {
             Inner::Sim(h) => h,
         };
         io_point();
+        if let Some(e) = budget_err() {
+            return Err(e);
+        }
         if h.writable {
             with(|w| w.writer_seeks += 1);
         }
